@@ -240,126 +240,243 @@ end H2.Hpack
 namespace H2.Hpack
 open H2
 
-theorem parse_sizeUpdate_octet (valid : Nat → Bool) (c : Nat) (cs : Bytes) (n : Nat) (rest : Bytes)
-    (hp : Spec.parse valid (c :: cs) = .ok (.sizeUpdate n) rest) : 32 ≤ c ∧ c < 64 := by
-  unfold Spec.parse at hp
-  by_cases h128 : c ≥ 128
-  · simp only [h128, if_true] at hp
-    cases hi : readInt 7 (c :: cs) <;> simp [hi] at hp
-  · simp only [h128, if_false] at hp
-    by_cases h64 : c ≥ 64
-    · simp only [h64, if_true] at hp
-      obtain ⟨_, _, _, hr⟩ := parseLiteral_shape _ _ _ _ _ hp
-      cases hr
-    · simp only [h64, if_false] at hp
-      by_cases h32 : c ≥ 32
-      · omega
-      · simp only [h32, if_false] at hp
-        by_cases h16 : c ≥ 16
-        · simp only [h16, if_true] at hp
-          obtain ⟨_, _, _, hr⟩ := parseLiteral_shape _ _ _ _ _ hp
-          cases hr
-        · simp only [h16, if_false] at hp
-          obtain ⟨_, _, _, hr⟩ := parseLiteral_shape _ _ _ _ _ hp
-          cases hr
+/-! ### the RFC step, unfolded once, and what a suffix behind its input changes -/
 
-/-- one representation, when a size update cannot be accepted here (not the start of a block, or the
-first octet is not `001xxxxx`) -/
-def oneRepr (st : DecState) (b : Bytes) : DecRes :=
-  match Spec.parse (Spec.validIn st) b with
-  | .incomplete => .needMore
-  | .invalid => .err
-  | .ok r rest =>
-    match Spec.apply st 1 r with
-    | some (st', some f) => .ok st' (some f) rest
-    | _ => .err
+theorem step_nil (st : DecState) (bs : Bool) (fp : Nat) : Spec.step st bs fp [] = .ok st none [] := by
+  simp [Spec.step, Spec.stepFuel]
 
-theorem step_one (st : DecState) (bs : Bool) (fp c : Nat) (cs : Bytes)
-    (hR : ¬ (bs = true ∧ fp = 0 ∧ 32 ≤ c ∧ c < 64)) :
-    Spec.step st bs fp (c :: cs) = oneRepr st (c :: cs) := by
-  unfold Spec.step oneRepr
-  simp only [List.length_cons]
-  unfold Spec.stepFuel
+theorem step_cons (st : DecState) (bs : Bool) (fp c : Nat) (cs : Bytes) :
+    Spec.step st bs fp (c :: cs) =
+      match Spec.parse (Spec.validIn st) (c :: cs) with
+      | .incomplete => .needMore
+      | .invalid => .err
+      | .ok r rest =>
+        match Spec.apply st (if bs then fp else fp + 1) r with
+        | none => .err
+        | some (st', some f) => .ok st' (some f) rest
+        | some (st', none) => Spec.step st' bs fp rest := by
+  show Spec.stepFuel (cs.length + 1 + 1) st bs fp (c :: cs) = _
+  simp only [Spec.stepFuel]
   cases hp : Spec.parse (Spec.validIn st) (c :: cs) with
   | incomplete => rfl
   | invalid => rfl
   | ok r rest =>
+    have hlt := parse_progress _ _ _ _ hp
+    simp only [List.length_cons] at hlt
     simp only
-    cases r with
-    | indexed i =>
-      simp only [Spec.apply]
-      cases hl : Spec.lookup st.dyn i <;> simp
-    | literal m nr v vh =>
-      simp only [Spec.apply]
-      cases nr with
-      | idx i => cases hl : Spec.lookup st.dyn i <;> cases m <;> simp [hl]
-      | lit n nh => cases m <;> simp
-    | sizeUpdate n =>
-      have hc := parse_sizeUpdate_octet _ _ _ _ _ hp
-      have hk : (if bs = true then fp else fp + 1) ≠ 0 := by
-        cases bs
-        · simp
-        · simp only [if_true]
-          intro h0
-          exact hR ⟨rfl, h0, hc.1, hc.2⟩
-      simp [Spec.apply, hk]
-
-theorem oneRepr_append_ok (st : DecState) (b q : Bytes) (st' : DecState) (o : Option Field) (rest : Bytes)
-    (h : oneRepr st b = .ok st' o rest) : oneRepr st (b ++ q) = .ok st' o (rest ++ q) := by
-  unfold oneRepr at h ⊢
-  cases hp : Spec.parse (Spec.validIn st) b with
-  | incomplete => simp [hp] at h
-  | invalid => simp [hp] at h
-  | ok r rest1 =>
-    rw [(parse_append _ b q).1 _ _ hp]
-    simp only [hp] at h
-    simp only
-    cases ha : Spec.apply st 1 r with
-    | none => simp [ha] at h
-    | some p =>
-      obtain ⟨s1, o1⟩ := p
-      cases o1 with
-      | none => simp [ha] at h
-      | some f =>
-        simp only [ha] at h ⊢
-        injection h with h1 h2 h3
-        subst h1 h2 h3; rfl
-
-theorem oneRepr_append_err (st : DecState) (b q : Bytes) (h : oneRepr st b = .err) : oneRepr st (b ++ q) = .err := by
-  unfold oneRepr at h ⊢
-  cases hp : Spec.parse (Spec.validIn st) b with
-  | incomplete => simp [hp] at h
-  | invalid => rw [(parse_append _ b q).2 hp]
-  | ok r rest1 =>
-    rw [(parse_append _ b q).1 _ _ hp]
-    simp only [hp] at h
-    simp only
-    cases ha : Spec.apply st 1 r with
+    cases ha : Spec.apply st (if bs then fp else fp + 1) r with
     | none => rfl
     | some p =>
-      obtain ⟨s1, o1⟩ := p
-      cases o1 with
-      | none => rfl
-      | some f => simp [ha] at h
+      obtain ⟨st', o⟩ := p
+      cases o with
+      | some f => rfl
+      | none =>
+        simp only
+        exact stepFuel_fuel (cs.length + 1) st' bs fp rest (by omega)
 
-theorem oneRepr_some (st : DecState) (b : Bytes) (st' : DecState) (o : Option Field) (rest : Bytes)
-    (h : oneRepr st b = .ok st' o rest) : ∃ f, o = some f := by
-  unfold oneRepr at h
-  cases hp : Spec.parse (Spec.validIn st) b with
-  | incomplete => simp [hp] at h
-  | invalid => simp [hp] at h
-  | ok r rest1 =>
-    simp only [hp] at h
-    cases ha : Spec.apply st 1 r with
-    | none => simp [ha] at h
-    | some p =>
-      obtain ⟨s1, o1⟩ := p
-      cases o1 with
-      | none => simp [ha] at h
-      | some f =>
-        simp only [ha] at h
-        injection h with _ h2 _
-        exact ⟨f, h2.symm⟩
+/-- the meaning of a representation depends on the number of fields before it only through "none yet" -/
+theorem apply_congr (st : DecState) (k k' : Nat) (r : Spec.Repr) (h : k = 0 ↔ k' = 0) :
+    Spec.apply st k r = Spec.apply st k' r := by
+  cases r with
+  | indexed i => rfl
+  | literal m nr v vh => rfl
+  | sizeUpdate n => simp only [Spec.apply, h]
+
+theorem step_congr (bs bs' : Bool) (fp fp' : Nat)
+    (h : (if bs then fp else fp + 1) = 0 ↔ (if bs' then fp' else fp' + 1) = 0) :
+    ∀ (n : Nat) (st : DecState) (b : Bytes), b.length ≤ n → Spec.step st bs fp b = Spec.step st bs' fp' b := by
+  intro n
+  induction n with
+  | zero =>
+    intro st b hb
+    have : b = [] := List.eq_nil_of_length_eq_zero (by omega)
+    subst this; simp [step_nil]
+  | succ n ih =>
+    intro st b hb
+    cases b with
+    | nil => simp [step_nil]
+    | cons c cs =>
+      rw [step_cons, step_cons]
+      cases hp : Spec.parse (Spec.validIn st) (c :: cs) with
+      | incomplete => rfl
+      | invalid => rfl
+      | ok r rest =>
+        have hlt := parse_progress _ _ _ _ hp
+        simp only [List.length_cons] at hlt hb
+        simp only
+        rw [apply_congr st _ _ r h]
+        cases ha : Spec.apply st (if bs' then fp' else fp' + 1) r with
+        | none => rfl
+        | some p =>
+          obtain ⟨st', o⟩ := p
+          cases o with
+          | some f => rfl
+          | none => exact ih st' rest (by omega)
+
+/-- what the step makes of `x` it makes of `x ++ y`, except that it goes on into `y` where `x` ran out -/
+theorem step_append (bs : Bool) (fp : Nat) (y : Bytes) : ∀ (n : Nat) (st : DecState) (x : Bytes), x.length ≤ n →
+    match Spec.step st bs fp x with
+    | .err => Spec.step st bs fp (x ++ y) = .err
+    | .ok st' (some f) rest => Spec.step st bs fp (x ++ y) = .ok st' (some f) (rest ++ y)
+    | .ok st' none rest => rest = [] ∧ Spec.step st bs fp (x ++ y) = Spec.step st' bs fp y
+    | .needMore => True := by
+  intro n
+  induction n with
+  | zero =>
+    intro st x hx
+    have : x = [] := List.eq_nil_of_length_eq_zero (by omega)
+    subst this; simp [step_nil]
+  | succ n ih =>
+    intro st x hx
+    cases x with
+    | nil => simp [step_nil]
+    | cons c cs =>
+      simp only [List.cons_append]
+      rw [step_cons, step_cons]
+      have hpa := parse_append (Spec.validIn st) (c :: cs) y
+      simp only [List.cons_append] at hpa
+      cases hp : Spec.parse (Spec.validIn st) (c :: cs) with
+      | incomplete => simp
+      | invalid => simp [hpa.2 hp]
+      | ok r rest =>
+        have hlt := parse_progress _ _ _ _ hp
+        simp only [List.length_cons] at hlt hx
+        rw [hpa.1 _ _ hp]
+        simp only
+        cases ha : Spec.apply st (if bs then fp else fp + 1) r with
+        | none => simp
+        | some p =>
+          obtain ⟨st', o⟩ := p
+          cases o with
+          | some f => simp
+          | none => exact ih st' rest (by omega)
+
+/-! ### the octets a cut-short `nextField` call hands back -/
+
+theorem skipFuel_fuel : ∀ (fuel : Nat) (st : DecState) (bs : Bool) (fp : Nat) (b : Bytes),
+    b.length + 1 ≤ fuel → skipFuel fuel st bs fp b = skipFuel (b.length + 1) st bs fp b := by
+  intro fuel
+  induction fuel using Nat.strongRecOn with
+  | _ fuel ih =>
+    intro st bs fp b h
+    cases fuel with
+    | zero => omega
+    | succ fuel =>
+      cases b with
+      | nil => simp [skipFuel]
+      | cons c cs =>
+        simp only [List.length_cons]
+        unfold skipFuel
+        by_cases hc : 32 ≤ c ∧ c < 64
+        · simp only [hc, and_self, if_true]
+          cases hi : readInt 5 (c :: cs) with
+          | needMore => rfl
+          | overflow => rfl
+          | ok n r =>
+            have hlt := readInt_progress _ _ _ _ hi
+            simp only [List.length_cons] at hlt h
+            simp only
+            split
+            · rfl
+            · split
+              · rfl
+              · rw [ih fuel (by omega) _ bs fp r (by omega), ih (cs.length + 1) (by omega) _ bs fp r (by omega)]
+        · simp [hc]
+
+theorem skip_nil (st : DecState) (bs : Bool) (fp : Nat) : Dec.skipUpdates st bs fp [] = (st, []) := by
+  simp [Dec.skipUpdates, skipFuel]
+
+theorem skip_cons (st : DecState) (bs : Bool) (fp c : Nat) (cs : Bytes) :
+    Dec.skipUpdates st bs fp (c :: cs) =
+      if 32 ≤ c ∧ c < 64 then
+        match readInt 5 (c :: cs) with
+        | .ok n r =>
+          if !bs || fp > 0 then (st, c :: cs)
+          else if n > st.limit then (st, c :: cs)
+          else Dec.skipUpdates { st with maxSize := n, dyn := evict st.dyn n } bs fp r
+        | _ => (st, c :: cs)
+      else (st, c :: cs) := by
+  show skipFuel (cs.length + 1 + 1) st bs fp (c :: cs) = _
+  simp only [skipFuel]
+  by_cases hc : 32 ≤ c ∧ c < 64
+  · simp only [hc, and_self, if_true]
+    cases hi : readInt 5 (c :: cs) with
+    | needMore => rfl
+    | overflow => rfl
+    | ok n r =>
+      have hlt := readInt_progress _ _ _ _ hi
+      simp only [List.length_cons] at hlt
+      simp only
+      split
+      · rfl
+      · split
+        · rfl
+        · exact skipFuel_fuel (cs.length + 1) _ bs fp r (by omega)
+  · simp [hc]
+
+/-- a size update octet starts a size update -/
+theorem parse_update (valid : Nat → Bool) (c : Nat) (cs : Bytes) (hc : 32 ≤ c ∧ c < 64) :
+    Spec.parse valid (c :: cs) =
+      match readInt 5 (c :: cs) with
+      | .ok n r => .ok (.sizeUpdate n) r
+      | .needMore => .incomplete
+      | .overflow => .invalid := by
+  unfold Spec.parse
+  have h1 : ¬ c ≥ 128 := by omega
+  have h2 : ¬ c ≥ 64 := by omega
+  have h3 : c ≥ 32 := hc.1
+  simp only [h1, h2, h3, if_false, if_true]
+  cases readInt 5 (c :: cs) <;> rfl
+
+/-- the step on the whole remaining block is the step from where the cut-short call left off: the size
+updates it consumed were applied once, and what it hands back starts behind them -/
+theorem skip_step (bs : Bool) (fp : Nat) (y : Bytes) : ∀ (n : Nat) (st : DecState) (x : Bytes), x.length ≤ n →
+    Spec.step st bs fp (x ++ y) =
+      Spec.step (Dec.skipUpdates st bs fp x).1 bs fp ((Dec.skipUpdates st bs fp x).2 ++ y) := by
+  intro n
+  induction n with
+  | zero =>
+    intro st x hx
+    have : x = [] := List.eq_nil_of_length_eq_zero (by omega)
+    subst this; simp [skip_nil]
+  | succ n ih =>
+    intro st x hx
+    cases x with
+    | nil => simp [skip_nil]
+    | cons c cs =>
+      rw [skip_cons]
+      by_cases hc : 32 ≤ c ∧ c < 64
+      · simp only [hc, and_self, if_true]
+        cases hi : readInt 5 (c :: cs) with
+        | needMore => rfl
+        | overflow => rfl
+        | ok v r =>
+          simp only
+          by_cases hk : (!bs || decide (fp > 0)) = true
+          · simp [hk]
+          · simp only [hk, Bool.false_eq_true, if_false]
+            by_cases hl : v > st.limit
+            · simp [hl]
+            · simp only [hl, if_false]
+              have hlt := readInt_progress _ _ _ _ hi
+              simp only [List.length_cons] at hlt hx
+              rw [← ih _ r (by omega)]
+              -- the step on `c :: cs ++ y` takes the size update and goes on behind it
+              have hbs : bs = true ∧ fp = 0 := by
+                cases bs
+                · simp at hk
+                · simp at hk; exact ⟨rfl, hk⟩
+              obtain ⟨rfl, rfl⟩ := hbs
+              simp only [List.cons_append]
+              rw [step_cons, parse_update _ _ _ hc]
+              have hia := readInt_append_ok 5 _ _ _ y hi
+              simp only [List.cons_append] at hia
+              simp only [hia]
+              have hle : v ≤ st.limit := by omega
+              simp [Spec.apply, hle, evict_eq]
+      · simp [hc]
+
+/-! ### the block decoder in terms of the step -/
 
 theorem blockFuel_fuel : ∀ (n : Nat) (st : DecState) (fp : Nat) (b : Bytes),
     b.length < n → Spec.blockFuel n st fp b = Spec.blockFuel (b.length + 1) st fp b := by
@@ -386,84 +503,101 @@ theorem blockFuel_fuel : ∀ (n : Nat) (st : DecState) (fp : Nat) (b : Bytes),
             simp only
             rw [ih n (by omega) st' (fp + 1) rest (by omega), ih (cs.length + 1) (by omega) st' (fp + 1) rest (by omega)]
 
-theorem afterUpdates_id (st : DecState) (bs : Bool) (fp : Nat) (b : Bytes)
-    (hR : ∀ c cs, b = c :: cs → ¬ (bs = true ∧ fp = 0 ∧ 32 ≤ c ∧ c < 64)) : Dec.afterUpdates st bs fp b = st := by
-  unfold Dec.afterUpdates
+/-- the specification's decoding of what is left of a block, `fp` fields in -/
+def blk (st : DecState) (fp : Nat) (b : Bytes) : Option (DecState × List Field) :=
+  Spec.blockFuel (b.length + 1) st fp b
+
+theorem blk_step (st : DecState) (fp : Nat) (b : Bytes) :
+    blk st fp b =
+      match Spec.step st true fp b with
+      | .ok st' (some f) rest => (blk st' (fp + 1) rest).map fun p => (p.1, f :: p.2)
+      | .ok st' none _ => some (st', [])
+      | _ => none := by
+  unfold blk
   cases b with
-  | nil => simp [updFuel]
+  | nil => simp [Spec.blockFuel, step_nil]
   | cons c cs =>
-    simp only [List.length_cons, updFuel]
-    by_cases hc : 32 ≤ c ∧ c < 64
-    · simp only [hc, and_self, if_true]
-      cases hi : readInt 5 (c :: cs) with
-      | needMore => rfl
-      | overflow => rfl
-      | ok n r =>
+    simp only [List.length_cons, Spec.blockFuel]
+    cases hs : Spec.step st true fp (c :: cs) with
+    | needMore => rfl
+    | err => rfl
+    | ok st' o rest =>
+      cases o with
+      | none => rfl
+      | some f =>
+        have hlt := step_progress _ _ _ _ _ _ _ hs
+        simp only [List.length_cons] at hlt
         simp only
-        have := hR c cs rfl
-        cases bs
-        · simp
-        · by_cases hfp : fp = 0
-          · exact absurd ⟨rfl, hfp, hc.1, hc.2⟩ this
-          · have : fp > 0 := by omega
-            simp [this]
-    · simp [hc]
+        rw [blockFuel_fuel _ _ _ _ (by omega)]
 
-end H2.Hpack
-
-namespace H2.Hpack
-open H2
-
-theorem upd_cons (c : Nat) (cs : Bytes) : Spec.startsWithUpdateOctet (c :: cs) = true ↔ (32 ≤ c ∧ c < 64) := by
-  simp [Spec.startsWithUpdateOctet]
+theorem blk_congr (st st' : DecState) (fp : Nat) (b b' : Bytes)
+    (h : Spec.step st true fp b = Spec.step st' true fp b') : blk st fp b = blk st' fp b' := by
+  rw [blk_step, blk_step, h]
 
 theorem map_prepend_nil (o : Option (DecState × List Field)) :
     o.map (fun p => (p.1, ([] : List Field) ++ p.2)) = o := by
   cases o <;> simp
 
+/-- `strm.fieldSeen` as the loop leaves it, from what it was when the frame started -/
+theorem seen_eq (bs : Bool) (fpF fpW : Nat) (h : (bs = true ∧ fpF = 0) ↔ fpW = 0) :
+    (!bs || decide (fpF > 0)) = seenAfter fpW [] := by
+  simp only [seenAfter, List.length_nil, Nat.add_zero]
+  cases bs
+  · have : fpW ≠ 0 := fun h0 => by have := h.2 h0; simp at this
+    have : 0 < fpW := by omega
+    simp [this]
+  · by_cases hf : fpF = 0
+    · have : fpW = 0 := h.1 ⟨rfl, hf⟩
+      simp [hf, this]
+    · have : fpW ≠ 0 := fun h0 => hf (h.2 h0).2
+      have h1 : 0 < fpW := by omega
+      have h2 : fpF > 0 := by omega
+      simp [h1, h2]
+
 /-- the loop of `handleHeaderFrame` over the octets at hand (`x`: carry-over plus this frame) against the
-specification's decoding of the whole remaining block (`x ++ y`), where no size update can be accepted -/
-theorem loop_gen : ∀ (m : Nat) (dec : DecState) (bs eh : Bool) (fpF fpW : Nat) (hf : Field) (x y : Bytes) (acc : List Field),
-    x.length ≤ m → (eh = true → y = []) →
-    (Spec.startsWithUpdateOctet x = true → fpW > 0 ∧ (bs = false ∨ fpF > 0)) →
-    match Block.loop m dec bs eh fpF hf x acc with
-    | .ok ⟨dec', r⟩ acc' => ∃ fs, acc' = acc ++ fs ∧ (eh = true → r = []) ∧
-        (Spec.startsWithUpdateOctet r = true → fpW + fs.length > 0) ∧ (fs = [] → r = x) ∧
-        Spec.blockFuel ((x ++ y).length + 1) dec fpW (x ++ y) =
-          (Spec.blockFuel ((r ++ y).length + 1) dec' (fpW + fs.length) (r ++ y)).map (fun p => (p.1, fs ++ p.2))
-    | .err _ => Spec.blockFuel ((x ++ y).length + 1) dec fpW (x ++ y) = none := by
+specification's decoding of the whole remaining block (`x ++ y`). `fpW` counts the fields of the block so
+far; the loop knows `bs` (no field in earlier frames) and `fpF` (fields in this frame). -/
+theorem loop_gen : ∀ (m : Nat) (dec : DecState) (bs eh : Bool) (fpF fpW : Nat) (x y : Bytes) (acc : List Field),
+    x.length ≤ m → (eh = true → y = []) → ((bs = true ∧ fpF = 0) ↔ fpW = 0) →
+    match Block.loop m dec bs eh fpF x acc with
+    | .ok ⟨dec', r, sn⟩ acc' => ∃ fs, acc' = acc ++ fs ∧ (eh = true → r = []) ∧ sn = seenAfter fpW fs ∧
+        blk dec fpW (x ++ y) = (blk dec' (fpW + fs.length) (r ++ y)).map (fun p => (p.1, fs ++ p.2))
+    | .err _ => blk dec fpW (x ++ y) = none := by
   intro m
   induction m with
   | zero =>
-    intro dec bs eh fpF fpW hf x y acc hm hy hx
+    intro dec bs eh fpF fpW x y acc hm hy hI
     have : x = [] := List.eq_nil_of_length_eq_zero (by omega)
     subst this
     simp only [Block.loop]
-    refine ⟨[], ?_, ?_, ?_, ?_, ?_⟩ <;> simp [Spec.startsWithUpdateOctet, map_prepend_nil]
+    exact ⟨[], by simp, by simp, seen_eq bs fpF fpW hI, by simp⟩
   | succ m ih =>
-    intro dec bs eh fpF fpW hf x y acc hm hy hx
+    intro dec bs eh fpF fpW x y acc hm hy hI
     cases x with
     | nil =>
       simp only [Block.loop, List.isEmpty_nil, if_true]
-      refine ⟨[], ?_, ?_, ?_, ?_, ?_⟩ <;> simp [Spec.startsWithUpdateOctet, map_prepend_nil]
+      exact ⟨[], by simp, by simp, seen_eq bs fpF fpW hI, by simp⟩
     | cons c cs =>
-      have hRF : ¬ (bs = true ∧ fpF = 0 ∧ 32 ≤ c ∧ c < 64) := by
-        intro ⟨h1, h2, h3, h4⟩
-        have := hx ((upd_cons c cs).2 ⟨h3, h4⟩)
-        rcases this.2 with h | h
-        · rw [h1] at h; cases h
-        · omega
-      have hRW : ¬ ((true : Bool) = true ∧ fpW = 0 ∧ 32 ≤ c ∧ c < 64) := by
-        intro ⟨_, h2, h3, h4⟩
-        have := hx ((upd_cons c cs).2 ⟨h3, h4⟩)
-        omega
-      have hF : Dec.next dec bs fpF (c :: cs) = oneRepr dec (c :: cs) := by
-        rw [next_eq_step, step_one _ _ _ _ _ hRF]
-      have hW : Spec.step dec true fpW (c :: (cs ++ y)) = oneRepr dec ((c :: cs) ++ y) := by
-        rw [step_one _ _ _ _ _ hRW]; rfl
-      simp only [Block.loop, List.isEmpty_cons, Bool.false_eq_true, if_false, hF, List.cons_append, List.length_cons]
-      simp only [Spec.blockFuel, hW]
-      cases ho : oneRepr dec (c :: cs) with
+      have hK : (if bs = true then fpF else fpF + 1) = 0 ↔ (if (true : Bool) = true then fpW else fpW + 1) = 0 := by
+        cases bs
+        · simp only [Bool.false_eq_true, if_false, if_true]
+          constructor
+          · intro h; omega
+          · intro h; have := hI.2 h; simp at this
+        · simp only [if_true]
+          constructor
+          · intro h; exact hI.1 ⟨rfl, h⟩
+          · intro h; exact (hI.2 h).2
+      have hcg : ∀ (st : DecState) (b : Bytes), Spec.step st bs fpF b = Spec.step st true fpW b :=
+        fun st b => step_congr bs true fpF fpW hK b.length st b (Nat.le_refl _)
+      have hF : Dec.next dec bs fpF (c :: cs) = Spec.step dec true fpW (c :: cs) := by
+        rw [next_eq_step, hcg]
+      simp only [Block.loop, List.isEmpty_cons, Bool.false_eq_true, if_false, hF]
+      have hA := step_append true fpW y (c :: cs).length dec (c :: cs) (Nat.le_refl _)
+      cases hs : Spec.step dec true fpW (c :: cs) with
+      | err =>
+        simp only [hs] at hA ⊢
+        rw [blk_step, hA]
       | needMore =>
         simp only
         cases eh with
@@ -471,51 +605,50 @@ theorem loop_gen : ∀ (m : Nat) (dec : DecState) (bs eh : Bool) (fpF fpW : Nat)
           simp only [if_true]
           have := hy rfl
           subst this
-          simp [ho]
+          rw [List.append_nil, blk_step, hs]
         | false =>
           simp only [Bool.false_eq_true, if_false]
-          have hid : Dec.afterUpdates dec bs fpF (c :: cs) = dec := by
-            apply afterUpdates_id
-            intro c' cs' he
-            injection he with h1 h2
-            subst h1 h2
-            exact hRF
-          rw [hid]
-          refine ⟨[], by simp, (fun h => by cases h), ?_, (fun _ => by simp), ?_⟩
-          · intro hu
-            have := hx hu
-            simp; omega
-          · simp only [List.length_nil, Nat.add_zero, List.cons_append, List.length_cons, Spec.blockFuel, hW, map_prepend_nil]
-      | err =>
-        simp only
-        rw [oneRepr_append_err _ _ y ho]
+          refine ⟨[], by simp, (fun h => by cases h), seen_eq bs fpF fpW hI, ?_⟩
+          have e : blk dec fpW (c :: cs ++ y) =
+              blk (Dec.skipUpdates dec bs fpF (c :: cs)).1 fpW ((Dec.skipUpdates dec bs fpF (c :: cs)).2 ++ y) := by
+            apply blk_congr
+            rw [← hcg, skip_step bs fpF y (c :: cs).length dec (c :: cs) (Nat.le_refl _), hcg]
+          rw [e]
+          simp
       | ok dec1 o rest =>
-        obtain ⟨f, rfl⟩ := oneRepr_some _ _ _ _ _ ho
-        have hlt : rest.length < (c :: cs).length := by
-          have hs : Spec.step dec bs fpF (c :: cs) = .ok dec1 (some f) rest := by rw [step_one _ _ _ _ _ hRF, ho]
-          exact step_progress _ _ _ _ _ _ _ hs
-        simp only [List.length_cons] at hlt hm
-        simp only
-        rw [oneRepr_append_ok _ _ y _ _ _ ho]
-        simp only
-        have hfu : Spec.blockFuel ((cs ++ y).length + 1) dec1 (fpW + 1) (rest ++ y) =
-            Spec.blockFuel ((rest ++ y).length + 1) dec1 (fpW + 1) (rest ++ y) :=
-          blockFuel_fuel _ _ _ _ (by simp only [List.length_append]; omega)
-        rw [hfu]
-        have := ih dec1 bs eh (fpF + 1) (fpW + 1) f rest y (acc ++ [f]) (by omega) hy (fun _ => ⟨by omega, Or.inr (by omega)⟩)
-        cases hl : Block.loop m dec1 bs eh (fpF + 1) f rest (acc ++ [f]) with
-        | err fs => simp only [hl] at this; rw [this]; rfl
-        | ok s acc' =>
-          obtain ⟨dec', r⟩ := s
-          simp only [hl] at this
-          obtain ⟨fs', hacc, hr, hu, _, hb⟩ := this
-          refine ⟨f :: fs', by simp [hacc], hr, ?_, (fun h => by cases h), ?_⟩
-          · intro h; simp only [List.length_cons]; omega
-          · rw [hb]
-            simp only [List.length_cons, Option.map_map]
-            have e : fpW + 1 + fs'.length = fpW + (fs'.length + 1) := by omega
-            rw [e]
-            congr 1
+        cases o with
+        | none =>
+          simp only [hs] at hA ⊢
+          obtain ⟨_, hA⟩ := hA
+          refine ⟨[], by simp, by simp, seen_eq bs fpF fpW hI, ?_⟩
+          rw [blk_congr _ _ _ _ _ hA]
+          simp
+        | some f =>
+          simp only [hs] at hA ⊢
+          have hlt := step_progress _ _ _ _ _ _ _ hs
+          simp only [List.length_cons] at hlt hm
+          have hI' : (bs = true ∧ fpF + 1 = 0) ↔ fpW + 1 = 0 := by
+            constructor
+            · intro h; omega
+            · intro h; omega
+          have := ih dec1 bs eh (fpF + 1) (fpW + 1) rest y (acc ++ [f]) (by omega) hy hI'
+          rw [blk_step, hA]
+          simp only
+          cases hl : Block.loop m dec1 bs eh (fpF + 1) rest (acc ++ [f]) with
+          | err fs => simp only [hl] at this; rw [this]; rfl
+          | ok s acc' =>
+            obtain ⟨dec', r, sn⟩ := s
+            simp only [hl] at this
+            obtain ⟨fs', hacc, hr, hsn, hb⟩ := this
+            refine ⟨f :: fs', by simp [hacc], hr, ?_, ?_⟩
+            · rw [hsn]
+              have : fpW + 1 + fs'.length = fpW + (fs'.length + 1) := by omega
+              simp only [seenAfter, List.length_cons, this]
+            · rw [hb]
+              simp only [List.length_cons, Option.map_map]
+              have e : fpW + 1 + fs'.length = fpW + (fs'.length + 1) := by omega
+              rw [e]
+              congr 1
 
 end H2.Hpack
 
@@ -534,88 +667,76 @@ def feedFrames : Block.State → Bool → List Bytes → List Field → Block.Re
     | .ok s fs => feedFrames s false (q :: ps) (acc ++ fs)
     | .err fs => .err (acc ++ fs)
 
-theorem upd_append (x y : Bytes) (hx : x ≠ []) :
-    Spec.startsWithUpdateOctet (x ++ y) = Spec.startsWithUpdateOctet x := by
-  cases x with
-  | nil => exact absurd rfl hx
-  | cons c cs => rfl
-
-theorem frames_gen : ∀ (frames : List Bytes) (dec : DecState) (prev : Bytes) (first : Bool) (fpW : Nat) (acc : List Field),
-    frames ≠ [] → (first = true → prev = [] ∧ fpW = 0) →
-    (Spec.startsWithUpdateOctet (prev ++ frames.flatten) = true → fpW > 0) →
-    match feedFrames ⟨dec, prev⟩ first frames acc with
-    | .ok ⟨dec', r⟩ acc' => r = [] ∧ ∃ fs, acc' = acc ++ fs ∧
-        Spec.blockFuel ((prev ++ frames.flatten).length + 1) dec fpW (prev ++ frames.flatten) = some (dec', fs)
-    | .err _ => Spec.blockFuel ((prev ++ frames.flatten).length + 1) dec fpW (prev ++ frames.flatten) = none := by
+/-- **reassembly**: the frames of a block, fed one by one with the carry-over between them, against the
+specification's decoding of the concatenation — `fpW` fields of the block already decoded, `prev` carried
+over, `sn` what `strm.fieldSeen` says -/
+theorem frames_gen : ∀ (frames : List Bytes) (dec : DecState) (prev : Bytes) (sn first : Bool) (fpW : Nat) (acc : List Field),
+    frames ≠ [] → (first = true → fpW = 0) → (first = false → sn = seenAfter fpW []) →
+    match feedFrames ⟨dec, prev, sn⟩ first frames acc with
+    | .ok ⟨dec', r, sn'⟩ acc' => r = [] ∧ ∃ fs, acc' = acc ++ fs ∧ sn' = seenAfter fpW fs ∧
+        blk dec fpW (prev ++ frames.flatten) = some (dec', fs)
+    | .err _ => blk dec fpW (prev ++ frames.flatten) = none := by
   intro frames
   induction frames with
-  | nil => intro dec prev first fpW acc h; exact absurd rfl h
+  | nil => intro dec prev sn first fpW acc h; exact absurd rfl h
   | cons p ps ih =>
-    intro dec prev first fpW acc _ hfirst hupd
-    -- the loop over `prev ++ p`, with the rest of the block behind it
-    have hx : ∀ y, prev ++ (p :: ps).flatten = (prev ++ p) ++ y → Spec.startsWithUpdateOctet (prev ++ p) = true →
-        fpW > 0 ∧ ((!(!first) && prev.isEmpty) = false ∨ 0 > 0) := by
-      intro y hy hu
-      have hne : prev ++ p ≠ [] := by
-        intro h; rw [h] at hu; simp [Spec.startsWithUpdateOctet] at hu
-      have h1 : fpW > 0 := hupd (by rw [hy, upd_append _ _ hne]; exact hu)
-      refine ⟨h1, Or.inl ?_⟩
+    intro dec prev sn first fpW acc _ hfirst hcont
+    -- what the frame loop knows about the block so far
+    have hI : ((!(!first && sn)) = true ∧ 0 = 0) ↔ fpW = 0 := by
       cases first with
-      | false => rfl
-      | true => have := (hfirst rfl).2; omega
+      | true => simp [hfirst rfl]
+      | false =>
+        have := hcont rfl
+        subst this
+        simp only [seenAfter, List.length_nil, Nat.add_zero, Bool.not_false, Bool.true_and]
+        by_cases h0 : fpW = 0
+        · simp [h0]
+        · have : 0 < fpW := by omega
+          simp [this, h0]
     cases ps with
     | nil =>
-      have hg := loop_gen (prev ++ p).length dec (!(!first) && prev.isEmpty) true 0 fpW ⟨[], [], false⟩ (prev ++ p) [] []
-        (Nat.le_refl _) (fun _ => rfl) (hx [] (by simp))
+      have hg := loop_gen (prev ++ p).length dec (!(!first && sn)) true 0 fpW (prev ++ p) [] []
+        (Nat.le_refl _) (fun _ => rfl) hI
       simp only [feedFrames, Block.feed, List.flatten_cons, List.flatten_nil, List.append_nil] at hg ⊢
-      cases hl : Block.loop (prev ++ p).length dec (!(!first) && prev.isEmpty) true 0 ⟨[], [], false⟩ (prev ++ p) [] with
+      cases hl : Block.loop (prev ++ p).length dec (!(!first && sn)) true 0 (prev ++ p) [] with
       | err fs => simp only [hl] at hg ⊢; exact hg
       | ok s fs =>
-        obtain ⟨dec', r⟩ := s
+        obtain ⟨dec', r, sn'⟩ := s
         simp only [hl] at hg ⊢
-        obtain ⟨fs', hfs, hr, _, _, hb⟩ := hg
+        obtain ⟨fs', hfs, hr, hsn, hb⟩ := hg
         have hr' : r = [] := by simpa using hr
         subst hr'
         simp only [List.nil_append] at hfs
         subst hfs
-        refine ⟨rfl, fs, rfl, ?_⟩
+        refine ⟨rfl, fs, rfl, hsn, ?_⟩
         rw [hb]
-        simp [Spec.blockFuel]
+        simp [blk, Spec.blockFuel]
     | cons q qs =>
-      have hg := loop_gen (prev ++ p).length dec (!(!first) && prev.isEmpty) false 0 fpW ⟨[], [], false⟩ (prev ++ p) (q :: qs).flatten []
-        (Nat.le_refl _) (fun h => by cases h) (hx (q :: qs).flatten (by simp))
+      have hg := loop_gen (prev ++ p).length dec (!(!first && sn)) false 0 fpW (prev ++ p) (q :: qs).flatten []
+        (Nat.le_refl _) (fun h => by cases h) hI
       have hflat : prev ++ (p :: q :: qs).flatten = (prev ++ p) ++ (q :: qs).flatten := by simp
       rw [hflat]
       simp only [feedFrames, Block.feed]
-      cases hl : Block.loop (prev ++ p).length dec (!(!first) && prev.isEmpty) false 0 ⟨[], [], false⟩ (prev ++ p) [] with
+      cases hl : Block.loop (prev ++ p).length dec (!(!first && sn)) false 0 (prev ++ p) [] with
       | err fs => simp only [hl] at hg ⊢; exact hg
       | ok s fs =>
-        obtain ⟨dec', r⟩ := s
+        obtain ⟨dec', r, sn'⟩ := s
         simp only [hl] at hg ⊢
-        obtain ⟨fs', hfs, _, hu, hnil, hb⟩ := hg
+        obtain ⟨fs', hfs, _, hsn, hb⟩ := hg
         simp only [List.nil_append] at hfs
         subst hfs
-        have hupd' : Spec.startsWithUpdateOctet (r ++ (q :: qs).flatten) = true → fpW + fs.length > 0 := by
-          intro h
-          by_cases hrn : r = []
-          · by_cases hfn : fs = []
-            · have hxe := hnil hfn
-              rw [hrn] at hxe
-              have : fpW > 0 := hupd (by rw [hflat, ← hxe]; rw [hrn] at h; exact h)
-              omega
-            · have : 0 < fs.length := List.length_pos_iff.mpr hfn
-              omega
-          · rw [upd_append _ _ hrn] at h
-            exact hu h
-        have := ih dec' r false (fpW + fs.length) (acc ++ fs) (by simp) (fun h => by cases h) hupd'
+        have hsn' : sn' = seenAfter (fpW + fs.length) [] := by
+          rw [hsn]; simp [seenAfter]
+        have := ih dec' r sn' false (fpW + fs.length) (acc ++ fs) (by simp) (fun h => by cases h) (fun _ => hsn')
         rw [hb]
-        cases hrec : feedFrames ⟨dec', r⟩ false (q :: qs) (acc ++ fs) with
+        cases hrec : feedFrames ⟨dec', r, sn'⟩ false (q :: qs) (acc ++ fs) with
         | err e => simp only [hrec] at this ⊢; rw [this]; rfl
         | ok s2 acc2 =>
-          obtain ⟨dec2, r2⟩ := s2
+          obtain ⟨dec2, r2, sn2⟩ := s2
           simp only [hrec] at this ⊢
-          obtain ⟨hr2, fs2, hacc2, hb2⟩ := this
-          refine ⟨hr2, fs ++ fs2, by simp [hacc2], ?_⟩
-          rw [hb2]; rfl
+          obtain ⟨hr2, fs2, hacc2, hsn2, hb2⟩ := this
+          refine ⟨hr2, fs ++ fs2, by simp [hacc2], ?_, ?_⟩
+          · rw [hsn2]; simp [seenAfter, Nat.add_assoc]
+          · rw [hb2]; rfl
 
 end H2.Hpack
